@@ -140,7 +140,7 @@ SMALL = {"n_estimators": [2, 3], "max_ensemble_size": [2, 3], "n_parameter_sampl
          "num_features": [84], "window_length": [3, 5], "sp": [1, 2], "degree": [1, 2], "n_lags": [3, 4],
          "n_sigma": [2, 3], "num_intervals": [2, 4], "word_length": [4], "window_size": [8],
          "n_intervals": [2], "num_levels": [1, 2], "m": [4], "acf_lag": [4], "acf_min_values": [2],
-         "random_state": [0, 7], "n_jobs": [None, 1], "alphabet_size": [4], "pad_length": [None]}
+         "random_state": [0, 7], "n_jobs": [None, 1, 2, 2], "alphabet_size": [4], "pad_length": [None]}
 CLASS_POOLS = {
     ("NaiveForecaster", "strategy"): ["last", "mean", "drift"],
     ("EnsembleForecaster", "aggfunc"): ["mean", "median", "min", "max"],
@@ -182,6 +182,11 @@ def variations(cls, rng):
                 kw[name] = d + rng.choice([-1, 1])
             elif isinstance(d, float) and 0 < d < 1:
                 kw[name] = round(d * rng.choice([0.5, 0.9]), 4)
+    for name in sorted(kw):
+        # integers as they come out of numpy arrays / grids (np.int64), not only python ints
+        if isinstance(kw[name], int) and not isinstance(kw[name], bool) and name != "random_state" \
+                and rng.random() < 0.3:
+            kw[name] = np.int64(kw[name])
     return kw
 
 
@@ -257,6 +262,10 @@ def call_method(est, kind, m, data, minimal=False):
             return est.update_predict_single(data["y_new"])
         if m == "score":
             return est.score(data["y_new"].iloc[:2])
+        if m == "update":
+            return est.update(data["y_new"].iloc[:0], update_params=False)   # nothing new
+        if m == "update_predict":
+            return est.update_predict(data["y_new"], update_params=False)
     if kind == "forecaster":
         if m == "predict":
             return est.predict(data["fh"])
@@ -754,6 +763,9 @@ def _brief(d):
     return s if len(s) < 90 else s[:87] + "..."
 
 
+MINIMAL_VARIANTS = ("predict", "update_predict_single", "score", "update", "update_predict")
+
+
 def check_not_fitted(v, res, est, kind, data, NotFittedError, cloned):
     res.probe("not_fitted_calls_checked")
     if getattr(est, "is_fitted", False):
@@ -772,20 +784,20 @@ def check_not_fitted(v, res, est, kind, data, NotFittedError, cloned):
             continue
         try:
             call_method(est, kind, m, data)
-            if kind == "forecaster" and m in ("predict", "update_predict_single", "score"):
+            if kind == "forecaster" and m in MINIMAL_VARIANTS:
                 call_method(est, kind, m, data, minimal=True)
         except NotFittedError:
-            if kind == "forecaster" and m in ("predict", "update_predict_single", "score"):
+            if kind == "forecaster" and m in MINIMAL_VARIANTS:
                 try:
                     call_method(est, kind, m, data, minimal=True)
                 except NotFittedError:
                     continue
                 except Exception as e:  # noqa
-                    v("unfitted_wrong_error", "%s (called without a horizon) before fit raised %s (%s) "
+                    v("unfitted_wrong_error", "%s (called with the fewest / emptiest arguments) before fit raised %s (%s) "
                       "instead of NotFittedError" % (m, type(e).__name__, str(e)[:80]), method=m,
                       exc=type(e).__name__, cloned=cloned, minimal=True)
                     return
-                v("unfitted_returned_result", "%s (called without a horizon) before fit returned a "
+                v("unfitted_returned_result", "%s (called with the fewest / emptiest arguments) before fit returned a "
                   "result" % m, method=m, cloned=cloned, minimal=True)
                 return
             continue
